@@ -7,6 +7,7 @@ import (
 	"io"
 	"os"
 	"regexp"
+	"runtime"
 	"sort"
 	"strings"
 	"sync"
@@ -152,6 +153,35 @@ func logSince(mark int64) string {
 		fmt.Fprintf(&sb, "\n  [%dx] %s", seen[l], l)
 	}
 	sb.WriteString("\n")
+	return sb.String()
+}
+
+// stuckGoroutines lists the goroutines that are inside defradb's net, event or db packages
+// (where does a push hang?), for the message of an inconclusive run.
+func stuckGoroutines() string {
+	buf := make([]byte, 8<<20)
+	buf = buf[:runtime.Stack(buf, true)]
+	var sb strings.Builder
+	sb.WriteString("goroutines inside defradb net/event/db:\n")
+	n := 0
+	for _, g := range strings.Split(string(buf), "\n\n") {
+		if !strings.Contains(g, "defradb/net.") && !strings.Contains(g, "defradb/event.") && !strings.Contains(g, "internal/db.") {
+			continue
+		}
+		if strings.Contains(g, "verifharness/c15.stuckGoroutines") {
+			continue
+		}
+		lines := strings.Split(g, "\n")
+		if len(lines) > 17 {
+			lines = lines[:17]
+		}
+		sb.WriteString(strings.Join(lines, "\n"))
+		sb.WriteString("\n\n")
+		n++
+		if n >= 40 {
+			break
+		}
+	}
 	return sb.String()
 }
 
@@ -821,8 +851,8 @@ func (w *world) converge(full bool, where string) *hx.Failure {
 			lastPend = ""
 		}
 		if time.Since(start) > eventualBudget && len(orphan) == 0 {
-			hx.Harnessf("C15 inconclusive at %s: B still lacks documents after %v while retry records exist and the bookkeeping keeps changing (last change %v ago)\n%s%s",
-				where, eventualBudget, frozen.Round(time.Millisecond), s.describe(w), w.tr)
+			hx.Harnessf("C15 inconclusive at %s: B still lacks documents after %v while retry records exist and the bookkeeping keeps changing (last change %v ago)\n%s%s\n%s",
+				where, eventualBudget, frozen.Round(time.Millisecond), s.describe(w), w.tr, stuckGoroutines())
 		}
 		if time.Since(start) > flapBudget {
 			hx.Harnessf("C15 inconclusive at %s: state keeps changing without converging for %v\n%s%s", where, flapBudget, s.describe(w), w.tr)
